@@ -2310,6 +2310,28 @@ func (f *frame) constMethodFacts(c *Contract, name, rsort string) {
 		}
 	}
 	sort.Strings(paths)
+	// closed world: a single named type of the module implements the interface (see typeImplFacts)
+	nImpl := 0
+	for _, path := range paths {
+		p := e.db.w.ByPath[path]
+		if p.Types == nil {
+			continue
+		}
+		sc := p.Types.Scope()
+		for _, tnName := range sc.Names() {
+			tn, ok := sc.Lookup(tnName).(*types.TypeName)
+			if !ok || tn.IsAlias() {
+				continue
+			}
+			if _, isI := tn.Type().Underlying().(*types.Interface); isI {
+				continue
+			}
+			if types.Implements(tn.Type(), it) || types.Implements(types.NewPointer(tn.Type()), it) {
+				nImpl++
+			}
+		}
+	}
+	closedWorld := nImpl <= 1
 	var cases []string
 	n := 0
 	for _, path := range paths {
@@ -2328,9 +2350,12 @@ func (f *frame) constMethodFacts(c *Contract, name, rsort string) {
 			}
 			cands := []types.Type{tn.Type()}
 			if !types.Implements(tn.Type(), it) {
-				// (when T itself implements the interface no type tag is introduced for *T: the closed-world facts
-				// name T as the implementation)
 				cands = []types.Type{types.NewPointer(tn.Type())}
+			} else if !closedWorld {
+				// a value type that implements the interface is usually boxed through a pointer (&broadcast2{...}); the
+				// pointer type gets its fact too - except for a closed-world interface (a single implementing type: the
+				// closed-world axiom names T as THE implementation and a tag for *T would contradict it)
+				cands = append(cands, types.NewPointer(tn.Type()))
 			}
 			for _, t := range cands {
 				if !types.Implements(t, it) {
